@@ -86,6 +86,11 @@ class Gen:
              'count': count, 'stride': stride, 'acc': acc, 'doc': doc}
         # the arguments of bit(..)/bits(..) may come in any order; `stride: n` is accepted like `stride = n`
         ro = self.rng_order
+        # spellings of the type: `arbitrary_int::u5` for `u5`, `core::option::Option<E>` for `Option<E>`
+        if ty.get('k') == 'u' and ty['n'] not in NATIVE and ro.random() < 0.12:
+            f['ty'] = dict(ty, path='arbitrary_int::')
+        elif ty.get('k') == 'custom' and ty.get('opt') and ro.random() < 0.3:
+            f['ty'] = dict(ty, opt_path=ro.choice(['core::option::', '::core::option::']))
         if (lst or len(entries) == 1) and ro.random() < (0.6 if stride is not None else 0.25):
             n = 1 + (1 if acc else 0) + (1 if stride is not None else 0)
             order = list(range(n))
